@@ -63,7 +63,11 @@ def gen_history(rng):
                     toks.append(list(tok))
             if changed:
                 typ = d["type"] if rng.random() < 0.6 else rng.choice(["given", "when", "then", "step"])
-                extra.append({"id": "x%d" % len(extra), "type": typ, "matcher": d["matcher"],
+                # the colliding registration may come after a use_step_matcher() switch
+                mt = d["matcher"] if rng.random() < 0.5 else rng.choice(["parse", "cfparse", "re"])
+                if mt == "re" and any(t[0] == "fld" and t[2] == "Color" for t in toks):
+                    mt = d["matcher"]
+                extra.append({"id": "x%d" % len(extra), "type": typ, "matcher": mt,
                               "tokens": toks, "module": d["module"], "after": d["id"], "async": False})
         elif r < 0.4:
             # identical pattern, different function, same or other type
